@@ -12,13 +12,17 @@ import (
 )
 
 type ClosestScn struct {
-	Fam     string      `json:"fam"`
-	ID      int         `json:"id"`
-	Names   []S         `json:"names"`
-	Hidden  []bool      `json:"hidden"`
-	HasWord bool        `json:"hasWord"`
-	Word    S           `json:"word"`
-	Obs     *ClosestObs `json:"obs,omitempty"`
+	Fam    string `json:"fam"`
+	ID     int    `json:"id"`
+	Names  []S    `json:"names"`
+	Hidden []bool `json:"hidden"`
+	// the Hidden marks are public fields: with HasBefore the commands carry the marks Before during a first pair of failing
+	// parses on the same parser, and the marks Hidden during the judged one
+	HasBefore bool        `json:"hasBefore"`
+	Before    []bool      `json:"before"`
+	HasWord   bool        `json:"hasWord"`
+	Word      S           `json:"word"`
+	Obs       *ClosestObs `json:"obs,omitempty"`
 }
 
 type ClosestObs struct {
@@ -51,6 +55,7 @@ func splitList(list string) []S {
 func runClosest(sc *ClosestScn) *ClosestObs {
 	obs := &ClosestObs{Names: []S{}}
 	p := flags.NewNamedParser("app", flags.None)
+	var cmds []*flags.Command
 	for i, n := range sc.Names {
 		c, err := p.AddCommand(n.String(), "", "", &nopCmd{})
 		if err != nil {
@@ -58,10 +63,24 @@ func runClosest(sc *ClosestScn) *ClosestObs {
 			return obs
 		}
 		c.Hidden = sc.Hidden[i]
+		cmds = append(cmds, c)
 	}
 	var args []string
 	if sc.HasWord {
 		args = []string{sc.Word.String()}
+	}
+	if sc.HasBefore && len(sc.Before) == len(cmds) {
+		for i, c := range cmds {
+			c.Hidden = sc.Before[i]
+		}
+		func() {
+			defer func() { recover() }()
+			p.ParseArgs([]string{})
+			p.ParseArgs(args)
+		}()
+		for i, c := range cmds {
+			c.Hidden = sc.Hidden[i]
+		}
 	}
 	var err error
 	func() {
@@ -204,6 +223,13 @@ func genClosest(r *rand.Rand, id int) *ClosestScn {
 		names = append(names, w)
 		sc.Names = append(sc.Names, toS(w))
 		sc.Hidden = append(sc.Hidden, chance(r, 0.2))
+	}
+	sc.Before = []bool{}
+	if chance(r, 0.3) {
+		sc.HasBefore = true
+		for range names {
+			sc.Before = append(sc.Before, chance(r, 0.4))
+		}
 	}
 	sc.HasWord = chance(r, 0.9)
 	if sc.HasWord {
